@@ -21,7 +21,7 @@ ASSUMPTIONS = [
     "session id 0 is outside the domain (a conforming peer never sends it, C08)",
     "reference rule: detected iff a previous message of the same (sender, channel) exists and (old flag clear and new set, or both set and new id <= old id)",
 ]
-BUDGET = {"quick": {"examples": 1600, "shrink": 300}, "thorough": {"examples": 64000, "shrink": 1500}}
+BUDGET = {"quick": {"examples": 8000, "shrink": 300}, "thorough": {"examples": 320000, "shrink": 1500}}
 IDS = {"quick": [1, 2, 0xFFFF], "thorough": [1, 2, 3, 0x7FFF, 0xFFFE, 0xFFFF]}
 EXHAUSTIVE = {
     "quick": "closure over 2 senders x 2 channels with ids {1,2,0xFFFF}: 7^4 states x 24 inputs = 57624 transitions",
